@@ -78,7 +78,7 @@ func makeCD(root string, img *cdImage, seed int64, hot []int64) {
 
 func C17(e *Env) {
 	run := e.Run
-	run.Rule = "cases: (image, READCD start/count) over synthesised raw CD images for 7 sector sizes x {ISO9660, PLAYSTATION, no} signature x size classes around the 2 MiB / 848 MiB detection window; pairs incl. start != count, count 0, last sector, ranges crossing EOF, re-open of an image with another sector size on the same connection; every byte compared with the harness's image; non-trivial = distinct (sector size, signature, size class, pair class, outcome)"
+	run.Rule = "cases: (image, READCD start/count) over synthesised raw CD images for 7 sector sizes x {ISO9660, PLAYSTATION, no} signature x size classes around the 2 MiB / 848 MiB detection window plus images of a whole number of raw sectors; pairs incl. start != count, count 0, last sector, ranges crossing EOF, re-open of an image with another sector size on the same connection; every byte compared with the harness's image; non-trivial = distinct (sector size, signature, size class, pair class, outcome)"
 	root := e.Dir("W/root")
 	rng := e.Rng(17)
 	var imgs []*cdImage
@@ -100,6 +100,10 @@ func C17(e *Env) {
 				imgs = append(imgs, img)
 			}
 		}
+	}
+	// what a real dump is: a whole number of raw sectors, nothing after the last one
+	for i, S := range cdSectorSizes {
+		imgs = append(imgs, &cdImage{rel: fmt.Sprintf("cd_%d_%s_whole.bin", S, []string{"iso", "psx"}[i%2]), S: S, sig: []string{"iso", "psx"}[i%2], size: (1300 + int64(i)) * S, wantS: S})
 	}
 	// the same base name in different directories with different sector sizes (anything remembered
 	// about an image must be keyed by the object, not by its name)
